@@ -29,8 +29,8 @@ Print Assumptions C15_fold_back_is_overlap.
 Theorem C15_simple_bf_is_the_definition :
   forall V : list (vec2 R),
     simple_bf Rops V = true <->
-    (3 <= length V /\
-     forall i j e1 e2, i < j -> nth_error (cpairs V) i = Some e1 -> nth_error (cpairs V) j = Some e2 -> pair_ok (length V) i j e1 e2).
+    ((3 <= length V)%nat /\
+     forall i j e1 e2, (i < j)%nat -> nth_error (cpairs V) i = Some e1 -> nth_error (cpairs V) j = Some e2 -> pair_ok (length V) i j e1 e2).
 Proof. exact simple_bf_spec. Qed.
 Print Assumptions C15_simple_bf_is_the_definition.
 
